@@ -11,6 +11,9 @@ META = {
     "level": "Decides: (R1) for each of the seven planner ops the multiset of primitive state effects of revert() is exactly the inverse of apply()'s success-path effects (slot fill<->remove, choice bind<->unbind, vdb exclusion add<->remove, forced restriction add<->remove, blocker refcount add<->remove, reverse-blocker append<->remove, limiter add<->remove), on the same operands; (R2) every apply() appends itself to the plan exactly once on its success path and a failing replace backs out before returning; (R3) backtrack reverts the suffix in reverse order and prunes exactly the number of reversions that completed; (R4) re-insertions done by a revert are forced where the original insertion could not have been refused, a limiter is added/removed exactly when the op's own reference is not counted, and an unbind precedes the rebind of a possibly equal key. Does NOT decide state equality for concrete histories.",
     "note": "PigeonHoledSlots / RefCountingSet primitives are opaque; nested ops spawned by apply (blocker decrefs) are separate plan entries reverted on their own",
 }
+META["technique"] += "; " + 'path-sensitive effect cancellation on refusing returns; counted-reference construction rule'
+META["level"] += " Added after the second round of independent changes: " + '(R2) every refusing return of an apply() (before the op is in the plan) leaves no net effect; (R5) forced_restrictions and blockers_refcnt are reference-counting sets.'
+META["technique"] += "; " + 'generic pack G on the anchored files (optional-flag shift, closures outliving a loop iteration, single-pass iterables consumed twice, %-templates built from data, in-place writes to class-level / memoised objects, generators mutating what they yielded, memo keys that are projections)'
 
 MOD = "pkgcore.resolver.state"
 INVERSE = {"slot+": "slot-", "slot-": "slot+", "choice+": "choice-", "choice-": "choice+", "vdb+": "vdb-", "vdb-": "vdb+", "forced+": "forced-", "forced-": "forced+",
